@@ -226,7 +226,7 @@ def c10(run, scratch):
     run.coverage['rule'] = ('TLC enumerates (DataSpace) and AsmData gives the expected bytes: 5 sequence directives + 4 shorthand packs + 10 pack formats x 4 byte-order/size prefixes (<, >, =, native) '
                             'x values (width 1: -140..270; width 2: all of -32780..65545 in the thorough tier, boundary bands otherwise; widths 4/8: +-3 around '
                             '-2^(8w), -2^(8w-1), 0, 2^(8w-1), 2^(8w) of every smaller width too, interior values, 2^40, 2^65); every string of <= 2 (3) atoms over '
-                            '21 atoms (ASCII, space, # " \' , ( ), 2/3/4-byte UTF-8, \\n \\t \\\\ \\\' \\" \\x41 \\xe9 \\101 \\0); include_bytes of 5 contents found beside the source, '
+                            '27 atoms (ASCII, space, # " \' , ( ), 2/3/4-byte UTF-8, form feed, NEL, U+2028, non-NFC text (combining accent, ANGSTROM SIGN) and U+0130, \\n \\t \\\\ \\\' \\" \\x41 \\xe9 \\101 \\0); include_bytes of 5 contents found beside the source, '
                             'in a subdirectory, in a -i directory, run from 4 working directories (API) and 2 (CLI subprocess), plus a nested tree where three included files in different directories each name their own neighbour blob.bin (with and without a -i directory); non-trivial = distinct points')
     for p in pts[:2]:
         run.sample({'directive': p[1], 'value': _val(p[2], p[3]), 'expected': p[4]})
@@ -680,6 +680,8 @@ def _fault_batch(args):
             shutil.rmtree(root)
         for d in ('proj', 'inc1', 'elsewhere'):
             os.makedirs(os.path.join(root, d), exist_ok=True)
+            with open(os.path.join(root, d, 'blob.bin'), 'wb') as f:      # what every file's `include_bytes blob.bin` line finds beside it
+                f.write(b'\x13\x00\x00\x00')
         for d, name, lines in files:
             with open(os.path.join(root, d, name), 'w') as f:
                 f.write('\n'.join(lines) + '\n')
@@ -771,7 +773,7 @@ def c15(run, scratch):
     run.coverage['duplicate_label_runs_accepted'] = accepted_dup
     run.coverage['exhaustive'] = True
     run.coverage['rule'] = ('TLC enumerates 42 faulty lines in 10 classes (range, register, label, constant, malformed, noninteger, duplicate, error, include, misfit; plain, '
-                            'pseudo-instruction, compressed, data and constant-definition variants) x 6 positions in the file x include depth 0..2; Flatten gives the provenance the error must '
+                            'pseudo-instruction, compressed, data and constant-definition variants) x 7 positions in the file (above and below an include_bytes line and the include line) x include depth 0..2; Flatten gives the provenance the error must '
                             'carry; each tree is assembled through the API (file path, and source string at depth 0) with compression off and on, and through the CLI for a sample '
                             '(exit status, stderr names file and line, no traceback)')
     for s in scs[:2]:
